@@ -1,7 +1,9 @@
 #!/usr/bin/env python3
 """py2coq — translate a few small pure functions of baize from their CURRENT Python source to Gallina.
 
-    tools/py2coq.py --target C14 [--repo /repo] [-o Generated.v]
+    tools/py2coq.py --target C14 [--repo /repo] [-o Generated.v]      translate the target function(s) of a property
+    tools/py2coq.py --target C14 --check [--repo /repo]               translate, compile, re-check <Cxx>/Translated.v
+    tools/py2coq.py --pystr-check                                     Lib/PyStr.v against this interpreter's str methods
     tools/py2coq.py --file baize/x.py --func Class.method [--name n] [--attr a=TYPE ...]
                     [--typevar T ...] [--opaque str.lower ...] [-o out.v]
 
@@ -566,10 +568,9 @@ class Fn:
                     pat, pad, cond, pad, a, pad, b, pad, self.block(rest, env2, k, ind))
             # a branch may leave the function: what follows the statement is the continuation of both branches
             if rest and not self.always_leaves(s.body) and not self.always_leaves(s.orelse or []):
-                if self.has_exit(rest) or len(rest) > 1:
-                    # both branches would carry a copy of everything that follows
-                    raise Unsupported(s, "if statement where both branches may fall through to further statements and one "
-                                         "may leave the function (the continuation would have to be duplicated)")
+                # both branches would carry a copy of everything that follows
+                raise Unsupported(s, "if statement where both branches may fall through to further statements and one "
+                                     "may leave the function (the continuation would have to be duplicated)")
 
             def after(e2):
                 return self.block(rest, e2, k, ind + 1)
@@ -813,6 +814,8 @@ def check_target(pid, repo=None, verif=None, timeout=120, keep=False):
                               "about the behaviour of the code): %s" % e)]
     except (OSError, SyntaxError) as e:
         return [(name, False, "cannot read the source: %s: %s" % (type(e).__name__, e))]
+    except Exception as e:      # a defect of the translator itself: also closed
+        return [(name, False, "the translator failed on the current source (%s: %s)" % (type(e).__name__, e))]
     bad = [t for t in FORBIDDEN_TOKENS if re.search(r"\b%s\b" % t, strip_coq_comments(text.replace(HEADER, "")))]
     if bad:
         return [(name, False, "generated text contains %s" % bad)]
@@ -1101,6 +1104,9 @@ def main():
         return 2
     except (OSError, SyntaxError) as e:
         print("py2coq: cannot read the source: %s: %s" % (type(e).__name__, e), file=sys.stderr)
+        return 2
+    except Exception as e:      # a defect of the translator itself: also closed
+        print("py2coq: NOT TRANSLATED, internal error %s: %s" % (type(e).__name__, e), file=sys.stderr)
         return 2
     if a.out:
         os.makedirs(os.path.dirname(os.path.abspath(a.out)), exist_ok=True)
